@@ -1013,9 +1013,10 @@ func (dsc *dataStoreCommand) randomKey() (output respValue) {
 		l := len(dsc.ds.data.buckets)
 		n := rand.Intn(l)
 
-		for {
+		// one pass over the table from a random position; expired keys don't exist
+		for visited := 0; visited < l; visited++ {
 			item := dsc.ds.data.buckets[n]
-			if item != nil {
+			if item != nil && !item.value.(*storeKey).isExpiredUnlocked() {
 				output.data = respBulkString(item.key)
 				return
 			}
